@@ -6,10 +6,12 @@ use crate::plan::*;
 use crate::prng::Rng;
 use crate::subjects::{catalogue, Subject};
 
+pub mod bytesgen;
+pub mod corrupt;
 pub mod wire;
 
 pub fn all() -> Vec<&'static dyn Scenario> {
-    vec![&wire::Wire]
+    vec![&wire::Wire, &corrupt::Corrupt, &corrupt::CorruptSweep]
 }
 
 pub fn by_name(n: &str) -> Option<&'static dyn Scenario> {
